@@ -305,6 +305,11 @@ def _rebind(I, expr, new, env, old):
     # a store through one name is visible through every alias: refuse when aliases may exist
     if I.ctx.frozen and id(old) in I.ctx.frozen:
         I.ctx.mutated.append((old, "[]="))
+    sh = getattr(old, "shares", None)
+    if sh is not None:
+        new.shares = sh
+        if I.ctx.frozen and id(sh) in I.ctx.frozen:
+            I.ctx.mutated.append((sh, "[]= through a shallow copy"))
     new.id = old.id
     old_aliases = getattr(old, "aliases", None)
     if isinstance(expr, ast.Name):
@@ -1365,3 +1370,19 @@ def np_array_split(I, args, kwargs):
         size = simp(to_z3(q) + z3.If(k < to_z3(r), 1, 0))
         out.append(SArr((size,), (lambda s_: (lambda i: a.fn(simp(to_z3(s_) + to_z3(i)))))(start), a.dtype, "ndarray"))
     return SList(out, "list")
+
+
+@method("arr", "any")
+def arr_any(I, recv, args, kwargs):
+    from .libmodels import _any
+    if recv.ndim != 1 or args or kwargs:
+        raise Undecided("ndarray.any on n-d array / with arguments")
+    return _any(I, [recv], {})
+
+
+@method("arr", "all")
+def arr_all(I, recv, args, kwargs):
+    from .libmodels import _all
+    if recv.ndim != 1 or args or kwargs:
+        raise Undecided("ndarray.all on n-d array / with arguments")
+    return _all(I, [recv], {})
